@@ -111,7 +111,7 @@ fn lit(v: i128) -> String {
 }
 
 /// Renders `v` as a constant expression; returns (text, Some(..) when the top-level operator binds weaker than `+`).
-fn render_expr(d: &mut Dice, v: i128, r: Repr, consts: &mut Vec<(String, i128)>) -> (String, Option<LowPrec>) {
+fn render_expr(d: &mut Dice, v: i128, r: Repr, consts: &mut Vec<(String, i128)>, spelled: &mut bool) -> (String, Option<LowPrec>) {
     #[derive(Clone, Copy, PartialEq)]
     enum K {
         Dec,
@@ -128,8 +128,43 @@ fn render_expr(d: &mut Dice, v: i128, r: Repr, consts: &mut Vec<(String, i128)>)
         Paren,
         MulAdd,
         Neg,
+        // other spellings of a literal / other expression forms (all pass through the derive as tokens)
+        Suffixed,
+        Underscore,
+        Bin,
+        Oct,
+        ByteChar,
+        CharCast,
+        BoolCast,
+        Not,
+        Block,
+        ConstFn,
     }
     let mut opts: Vec<(K, u32)> = vec![(K::Dec, 5)];
+    opts.push((K::Suffixed, 1));
+    opts.push((K::ConstFn, 1));
+    if v >= 0 {
+        opts.push((K::Bin, 1));
+        opts.push((K::Oct, 1));
+        opts.push((K::Block, 1));
+        if v >= 1000 {
+            opts.push((K::Underscore, 2));
+        }
+        if (32..127).contains(&v) && v != 39 && v != 92 {
+            opts.push((K::CharCast, 1));
+            if r.ty == "u8" {
+                opts.push((K::ByteChar, 2));
+            }
+        }
+        if v <= 1 {
+            opts.push((K::BoolCast, 2));
+        }
+        if !r.signed && r.bits <= 64 && r.max() - v <= 999 {
+            opts.push((K::Not, 2));
+        }
+    } else if v >= -1000 {
+        opts.push((K::Not, 1));
+    }
     if v >= 0 {
         opts.push((K::Hex, 2));
         opts.push((K::Cast, 2));
@@ -227,6 +262,51 @@ fn render_expr(d: &mut Dice, v: i128, r: Repr, consts: &mut Vec<(String, i128)>)
             (if kk == 0 { format!("{ty}::MIN") } else { format!("{ty}::MIN + {kk}") }, None)
         }
         K::Neg => (if d.chance(50) && v != i128::MIN { format!("-({})", -v) } else { format!("({v})") }, None),
+        K::Suffixed => {
+            *spelled = true;
+            (if d.chance(50) { format!("{v}{ty}") } else { format!("{v}_{ty}") }, None)
+        }
+        K::Underscore => {
+            *spelled = true;
+            let s = v.to_string();
+            let (h, t) = s.split_at(s.len() - 3);
+            (format!("{h}_{t}"), None)
+        }
+        K::Bin => {
+            *spelled = true;
+            (format!("0b{v:b}"), None)
+        }
+        K::Oct => {
+            *spelled = true;
+            (format!("0o{v:o}"), None)
+        }
+        K::ByteChar => {
+            *spelled = true;
+            (format!("b'{}'", v as u8 as char), None)
+        }
+        K::CharCast => {
+            *spelled = true;
+            (format!("'{}' as {ty}", v as u8 as char), None)
+        }
+        K::BoolCast => {
+            *spelled = true;
+            (format!("{} as {ty}", v == 1), None)
+        }
+        K::Not => {
+            *spelled = true;
+            // unsigned: !x == MAX - x; signed (v < 0): !x == -x - 1
+            let x = if v >= 0 { r.max() - v } else { -v - 1 };
+            (format!("!{x}"), None)
+        }
+        K::Block => {
+            *spelled = true;
+            let a = v / 2;
+            (format!("{{ {a} + {} }}", v - a), None)
+        }
+        K::ConstFn => {
+            *spelled = true;
+            (if d.chance(50) { format!("kid({v})") } else { format!("self::kid({v}) ") }, None)
+        }
     }
 }
 
@@ -263,7 +343,7 @@ fn defect_eval(lp: &LowPrec, k: i128, r: Repr) -> Option<i128> {
     }
 }
 
-const NAMES: [&str; 8] = ["A", "B", "C", "D", "E", "F", "G", "H"];
+const NAMES: [&str; 12] = ["A", "B", "C", "D", "E", "F", "G", "H", "I", "J", "L", "M"];
 const ODD_NAMES: [&str; 8] = ["Error", "Ok", "Err", "None", "Some", "r#fn", "r#type", "Self_"];
 
 fn build(d: &mut Dice) -> GenCase {
@@ -276,6 +356,8 @@ fn build(d: &mut Dice) -> GenCase {
     let unit_only = if has_int { d.chance(25) } else { d.chance(55) };
     let allow_explicit = has_int || unit_only;
     let nv = if d.chance(3) && !has_int && !generic { 0 } else { d.range(1, 8) };
+    // now and then a longer enum (implicit runs with two-digit offsets)
+    let nv = if nv > 0 && d.chance(6) { d.range(9, 12) } else { nv };
 
     // generic parameters
     let (mut use_lt, mut use_ty, mut use_const) = (false, false, false);
@@ -317,6 +399,12 @@ fn build(d: &mut Dice) -> GenCase {
     let mut fields_between_units = false;
     let mut seen_implicit = false;
     let mut need_fields_for_generics = generic && (use_lt || use_ty);
+    let mut spelled = false;
+    // further forms of the parameter list: 1 = defaults on the trailing parameters, 2 = a second lifetime bounded by
+    // the first, 3 = inline bound *and* where-clause on `T`, 4 = `T: 'a`
+    let gen_extra = if generic { d.weighted(&[5, 3, 2, 2, 2]) } else { 0 };
+    let use_lt2 = gen_extra == 2 && use_lt;
+    let mut lt2_used = false;
     let odd_names = d.chance(10);
     for i in 0..nv {
         let next = match cur {
@@ -371,7 +459,7 @@ fn build(d: &mut Dice) -> GenCase {
                     c
                 }
             };
-            let (text, lp) = render_expr(d, v, repr, &mut consts);
+            let (text, lp) = render_expr(d, v, repr, &mut consts, &mut spelled);
             since_explicit = lp.map(|l| (l, 0));
             if seen_implicit {
                 explicit_after_implicit = true;
@@ -408,6 +496,10 @@ fn build(d: &mut Dice) -> GenCase {
                 let mut parts: Vec<&str> = vec![];
                 if use_lt && need_fields_for_generics {
                     parts.push("&'a u8");
+                    if use_lt2 {
+                        parts.push("&'b u8");
+                        lt2_used = true;
+                    }
                 }
                 if use_ty && need_fields_for_generics {
                     parts.push("T");
@@ -445,27 +537,33 @@ fn build(d: &mut Dice) -> GenCase {
     // repr attribute(s)
     let ty = repr.ty;
     let (repr_attr, repr_label) = if has_int {
-        let forms: Vec<(String, &str)> = if c_like || nv == 0 {
+        // (text, label, weight)
+        let forms: Vec<(String, &str, u32)> = if c_like || nv == 0 {
             // `C` next to an integer hint conflicts on C-like enums (E0566): other hints only via align
             vec![
-                (format!("#[repr({ty})]\n"), "repr=int"),
-                (format!("#[repr({ty})]\n"), "repr=int"),
-                (format!("#[repr(align(8), {ty})]\n"), "repr=align+int"),
-                (format!("#[repr({ty})]\n#[repr(align(4))]\n"), "repr=int,then align"),
+                (format!("#[repr({ty})]\n"), "repr=int", 6),
+                (format!("#[repr(align(8), {ty})]\n"), "repr=align+int", 3),
+                (format!("#[repr({ty})]\n#[repr(align(4))]\n"), "repr=int,then align", 3),
+                (format!("#[repr({ty}, align(8))]\n"), "repr=int+align", 2),
+                (format!("#[repr(align(4))]\n#[repr({ty})]\n"), "repr=align,then int", 2),
             ]
         } else {
             vec![
-                (format!("#[repr({ty})]\n"), "repr=int"),
-                (format!("#[repr({ty})]\n"), "repr=int"),
-                (format!("#[repr(C, {ty})]\n"), "repr=C+int"),
-                (format!("#[repr({ty}, C)]\n"), "repr=int+C"),
-                (format!("#[repr(C)]\n#[repr({ty})]\n"), "repr=C,then int"),
-                (format!("#[repr({ty})]\n#[repr(C)]\n"), "repr=int,then C"),
-                (format!("#[repr(align(8), {ty})]\n"), "repr=align+int"),
-                (format!("#[repr({ty})]\n#[repr(align(4))]\n"), "repr=int,then align"),
+                (format!("#[repr({ty})]\n"), "repr=int", 6),
+                (format!("#[repr(C, {ty})]\n"), "repr=C+int", 3),
+                (format!("#[repr({ty}, C)]\n"), "repr=int+C", 3),
+                (format!("#[repr(C)]\n#[repr({ty})]\n"), "repr=C,then int", 3),
+                (format!("#[repr({ty})]\n#[repr(C)]\n"), "repr=int,then C", 3),
+                (format!("#[repr(align(8), {ty})]\n"), "repr=align+int", 3),
+                (format!("#[repr({ty})]\n#[repr(align(4))]\n"), "repr=int,then align", 3),
+                (format!("#[repr({ty}, align(8))]\n"), "repr=int+align", 2),
+                (format!("#[repr(C, align(8), {ty})]\n"), "repr=C+align+int", 2),
+                (format!("#[repr(C)]\n#[repr({ty})]\n#[repr(align(4))]\n"), "repr=C,then int,then align", 2),
+                (format!("#[repr(align(4))]\n#[repr({ty})]\n"), "repr=align,then int", 1),
             ]
         };
-        let f = forms[d.pick(forms.len())].clone();
+        let w: Vec<u32> = forms.iter().map(|f| f.2).collect();
+        let f = forms[d.weighted(&w)].clone();
         (f.0, f.1.to_string())
     } else if nv > 0 && d.chance(25) {
         ("#[repr(C)]\n".to_string(), "repr=C only (isize)".to_string())
@@ -474,21 +572,35 @@ fn build(d: &mut Dice) -> GenCase {
     } else {
         (String::new(), "repr=none (isize)".to_string())
     };
-    let attr_first = d.chance(50);
+    // 0: derive, try_from, repr; 1: derive, repr, try_from; 2: repr *before* the derive attribute
+    let attr_order = d.weighted(&[4, 4, 2]);
+    // inert attributes on the enum and on variants (doc comments, lint levels, cfg)
+    let noisy = d.chance(15);
+    let noise: Vec<&str> = (0..nv.max(1)).map(|_| if noisy { ["", "/// doc\n    ", "#[allow(dead_code)] ", "#[cfg(all())] ", "#[doc(hidden)] "][d.weighted(&[4, 2, 2, 1, 1])] } else { "" }).collect();
+    let enum_noise = if noisy { ["#[allow(dead_code)]\n", "/// An enum.\n#[non_exhaustive]\n", "#[allow(clippy::all)]\n"][d.pick(3)] } else { "" };
 
     // generics text
     let mut gdecl: Vec<String> = vec![];
     let mut gargs: Vec<String> = vec![];
     let mut ginst: Vec<String> = vec![];
     let mut where_clause = String::new();
+    // the same parameters as an impl header declares them (no defaults)
+    let mut gidecl: Vec<String> = vec![];
     if generic {
         if use_lt {
             gdecl.push("'a".into());
             gargs.push("'a".into());
             ginst.push("'static".into());
+            if lt2_used {
+                gdecl.push("'b: 'a".into());
+                gargs.push("'b".into());
+                ginst.push("'static".into());
+            }
         }
+        gidecl = gdecl.clone();
         let const_first = d.chance(40);
-        let mut rest: Vec<(String, String, String)> = vec![];
+        // (declaration, argument, instantiation, default)
+        let mut rest: Vec<(String, String, String, &str)> = vec![];
         if use_ty {
             let decl = match d.pick(3) {
                 0 => "T".to_string(),
@@ -498,42 +610,58 @@ fn build(d: &mut Dice) -> GenCase {
                     "T".to_string()
                 }
             };
-            rest.push((decl, "T".into(), "u16".into()));
+            let decl = match gen_extra {
+                3 => {
+                    // inline bound and where-clause at once
+                    where_clause = " where T: Clone, u8: Copy".into();
+                    "T: Copy".to_string()
+                }
+                4 if use_lt => format!("{}{}'a", decl, if decl.contains(':') { " + " } else { ": " }),
+                _ => decl,
+            };
+            rest.push((decl, "T".into(), "u16".into(), "u16"));
         }
         if use_const {
-            rest.push(("const N: usize".into(), "N".into(), "3".into()));
+            rest.push(("const N: usize".into(), "N".into(), "3".into(), "3"));
         }
         if const_first {
             rest.reverse();
         }
-        for (a, b, c) in rest {
-            gdecl.push(a);
+        // defaults must be trailing: the last parameter, now and then the one before it as well
+        let n_rest = rest.len();
+        let defaults_from = if gen_extra == 1 && n_rest > 0 { if n_rest > 1 && d.chance(40) { n_rest - 2 } else { n_rest - 1 } } else { n_rest };
+        for (i, (a, b, c, dflt)) in rest.into_iter().enumerate() {
+            gidecl.push(a.clone());
+            gdecl.push(if i >= defaults_from { format!("{a} = {dflt}") } else { a });
             gargs.push(b);
             ginst.push(c);
         }
     }
+    let generic_defaults = gdecl.iter().any(|g| g.contains(" = "));
     let (gd, ga, gi) = if gdecl.is_empty() {
         (String::new(), String::new(), String::new())
     } else {
         (format!("<{}>", gdecl.join(", ")), format!("<{}>", gargs.join(", ")), format!("<{}>", ginst.join(", ")))
     };
+    let gid = if gidecl.is_empty() { String::new() } else { format!("<{}>", gidecl.join(", ")) };
 
     // program text
     let mut body = String::new();
-    body.push_str(&format!("pub type R = {ty};\n"));
+    let head = format!("pub type R = {ty};\n#[allow(dead_code)] pub const fn kid(x: R) -> R {{ x }}\n");
+    body.push_str(&head);
     for (n, v) in &consts {
         body.push_str(&format!("pub const {n}: {ty} = {v};\n"));
     }
     let mut enum_text = String::new();
-    let derive_attrs = if attr_first {
-        format!("#[derive(derive_more::TryFrom)]\n#[try_from(repr)]\n{repr_attr}")
-    } else {
-        format!("#[derive(derive_more::TryFrom)]\n{repr_attr}#[try_from(repr)]\n")
+    let derive_attrs = match attr_order {
+        0 => format!("#[derive(derive_more::TryFrom)]\n#[try_from(repr)]\n{repr_attr}{enum_noise}"),
+        1 => format!("#[derive(derive_more::TryFrom)]\n{repr_attr}{enum_noise}#[try_from(repr)]\n"),
+        _ => format!("{enum_noise}{repr_attr}#[derive(derive_more::TryFrom)]\n#[try_from(repr)]\n"),
     };
     enum_text.push_str(&format!("pub enum E{gd}{where_clause} {{\n"));
-    for v in &vars {
+    for (i, v) in vars.iter().enumerate() {
         let disc = v.explicit.as_ref().map(|e| format!(" = {e}")).unwrap_or_default();
-        enum_text.push_str(&format!("    {}{}{disc},\n", v.name, v.fields));
+        enum_text.push_str(&format!("    {}{}{}{disc},\n", noise[i], v.name, v.fields));
     }
     enum_text.push_str("}\n");
     // the enum may be produced by a `macro_rules!` whose explicit discriminants arrive as `$d:expr` fragments
@@ -544,14 +672,14 @@ fn build(d: &mut Dice) -> GenCase {
         let params: Vec<String> = (0..explicit.len()).map(|k| format!("$d{k}:expr")).collect();
         let mut m = format!("macro_rules! __mk {{ ({}) => {{\n{derive_attrs}pub enum E{gd}{where_clause} {{\n", params.join(", "));
         let mut k = 0;
-        for v in &vars {
+        for (i, v) in vars.iter().enumerate() {
             let disc = if v.explicit.is_some() {
                 k += 1;
                 format!(" = $d{}", k - 1)
             } else {
                 String::new()
             };
-            m.push_str(&format!("    {}{}{disc},\n", v.name, v.fields));
+            m.push_str(&format!("    {}{}{}{disc},\n", noise[i], v.name, v.fields));
         }
         m.push_str(&format!("}}\n}} }}\n__mk!({});\n", explicit.join(", ")));
         body.push_str(&m);
@@ -559,7 +687,7 @@ fn build(d: &mut Dice) -> GenCase {
         body.push_str(&derive_attrs);
         body.push_str(&enum_text);
     }
-    let control = format!("pub type R = {ty};\n{}{repr_attr}{enum_text}", consts.iter().map(|(n, v)| format!("pub const {n}: {ty} = {v};\n")).collect::<String>());
+    let control = format!("{head}{}{repr_attr}{enum_text}", consts.iter().map(|(n, v)| format!("pub const {n}: {ty} = {v};\n")).collect::<String>());
     // twin: same discriminant expressions, fields stripped: castable whatever the enum looks like
     let twin_repr = if has_int { format!("#[repr({ty})]\n") } else { String::new() };
     body.push_str(&format!("pub mod twin {{\n    use super::*;\n    {twin_repr}    pub enum T {{\n"));
@@ -569,7 +697,7 @@ fn build(d: &mut Dice) -> GenCase {
     }
     body.push_str("    }\n}\n");
     // variant index
-    body.push_str(&format!("impl{gd} E{ga}{where_clause} {{\n    pub fn idx(&self) -> usize {{\n        match *self {{\n"));
+    body.push_str(&format!("impl{gid} E{ga}{where_clause} {{\n    pub fn idx(&self) -> usize {{\n        match *self {{\n"));
     for (i, v) in vars.iter().enumerate() {
         let pat = match v.form {
             Form::Unit => String::new(),
@@ -677,6 +805,27 @@ fn build(d: &mut Dice) -> GenCase {
     labels.push(repr_label);
     if via_macro {
         labels.push("discriminants_through_macro_fragments".into());
+    }
+    if spelled {
+        labels.push("literal_spelling_or_expression_form".into());
+    }
+    if generic_defaults {
+        labels.push("generic_param_defaults".into());
+    }
+    if generic && lt2_used {
+        labels.push("generic_second_lifetime".into());
+    }
+    if generic && use_ty && matches!(gen_extra, 3 | 4) {
+        labels.push("generic_bound_and_where_or_outlives".into());
+    }
+    if attr_order == 2 {
+        labels.push("repr_before_derive".into());
+    }
+    if noisy {
+        labels.push("inert_attributes_on_enum_and_variants".into());
+    }
+    if nv > 8 {
+        labels.push("more_than_8_variants".into());
     }
     labels.push(if exhaustive { "domain=every value (8/16 bit)".into() } else { "domain=discriminants+-1, extremes, seeded sample".into() });
     labels.push(if generic { "generic".into() } else { "non_generic".into() });
@@ -811,7 +960,7 @@ pub fn prop() -> DiceProp {
         build,
         fixed,
         classify,
-        rule: "enums with 0..8 variants over discriminant patterns (implicit runs, explicit decimal/hex/negative/extreme constants, constant expressions with <<, >>, |, ^, &, +, -, *, casts, parentheses and named constants), unit / empty-tuple / empty-brace variants and variants with fields interleaved, repr in {none, C only, align only => isize; u8..i128, usize, isize alone or with C / align hints in one or two attributes, before or after #[try_from(repr)]}, optional lifetime/type/const parameters; oracle: discriminant map by the Reference rule computed by the generator and cross-checked with `Variant as repr` casts of a field-stripped twin (and of the enum itself when field-less); try_from(n) over every value of 8/16-bit reprs, over discriminants +-1, extremes, 0 and 6000 seeded values otherwise: Ok(v) iff n is the discriminant of field-less v (and v's tag == n), else Err with input == n; non-trivial = an explicit discriminant after an implicit run or a variant with fields between unit variants; distinct by program text".into(),
+        rule: "enums with 0..8 variants over discriminant patterns (implicit runs, explicit decimal/hex/negative/extreme constants, constant expressions with <<, >>, |, ^, &, +, -, *, !, casts (incl. from char / bool), parentheses, blocks, const-fn calls, named constants, suffixed / underscored / binary / octal / byte literals), unit / empty-tuple / empty-brace variants and variants with fields interleaved, repr in {none, C only, align only => isize; u8..i128, usize, isize alone or with C / align hints in one to three attributes (int before or after the other hints), before or after #[try_from(repr)] or before the derive attribute}, inert attributes on enum and variants, up to 12 variants, optional lifetime/type/const parameters (defaults, a second bounded lifetime, inline bound plus where-clause, `T: 'a`); oracle: discriminant map by the Reference rule computed by the generator and cross-checked with `Variant as repr` casts of a field-stripped twin (and of the enum itself when field-less); try_from(n) over every value of 8/16-bit reprs, over discriminants +-1, extremes, 0 and 6000 seeded values otherwise: Ok(v) iff n is the discriminant of field-less v (and v's tag == n), else Err with input == n; non-trivial = an explicit discriminant after an implicit run or a variant with fields between unit variants; distinct by program text".into(),
         assumptions: vec![
             "u128 discriminants are generated within 0..=i128::MAX (the model computes in i128); u128 inputs are sampled over the full width".into(),
             "the tag of an enum with fields is read through a pointer only under a primitive representation (RFC 2195 layout); without one only the Ok/Err verdict and the variant are checked".into(),
@@ -830,6 +979,11 @@ pub fn prop() -> DiceProp {
             ("repr=none (isize)".into(), 0.04),
             ("repr=C+int".into(), 0.02),
             ("repr=align+int".into(), 0.03),
+            ("repr=int+align".into(), 0.03),
+            ("literal_spelling_or_expression_form".into(), 0.1),
+            ("generic_param_defaults".into(), 0.01),
+            ("repr_before_derive".into(), 0.1),
+            ("inert_attributes_on_enum_and_variants".into(), 0.05),
         ],
         shards: 0,
     }
